@@ -1,3 +1,4 @@
+import SieveModel.Generated.LexRules
 import SieveModel.Model.Machine
 import SieveModel.Model.Show
 import SieveModel.Generated.Footprint
@@ -40,5 +41,10 @@ theorem globals_rebound_are_reset :
 theorem factory_calls_unchecked : Generated.factoryCheckedCalls = [] := by decide
 
 example : Generated.parserMutated ≠ [] := by decide
+
+/-- the lexer rules of `sievelib/parser.py` (names, order, patterns, flags, white space) are the modelled ones -/
+theorem lexer_is_the_modelled_one :
+    Generated.lexRuleNames = TokKind.all.map TokKind.name ∧ Generated.lexRulePatterns = TokKind.patterns ∧
+      Generated.parserPatterns = TokKind.auxPatterns := by decide
 
 end C13
